@@ -534,6 +534,9 @@ class Concatenator(Group):  # pylint: disable=too-many-public-methods
             self.concatenated_attributes["Attributes"].remove(attr_handle)
             self.workspace.repack = True
 
+        if entity in getattr(parent, "_children", []):
+            parent._children.remove(entity)  # pylint: disable=protected-access
+
     def save_attribute(self, field: str):
         """
         Save a concatenated attribute.
